@@ -22,6 +22,7 @@ class Context:
 from dateutil import parser as date_parser
 from dateutil.relativedelta import relativedelta
 from math import trunc, ceil, floor
+from decimal import Decimal, ROUND_HALF_UP, ROUND_UP, ROUND_DOWN
 from typing import Dict, List, Literal, Any, Callable
 import calendar
 import re
@@ -338,16 +339,21 @@ class ExcelInPython:
 
         return result
 
+    @staticmethod
+    def _round_decimal(number: float, num_digits: int, rounding: str):
+        # the shortest decimal representation of the number is rounded, as Excel does, not its binary expansion
+        decimal_number = Decimal(repr(number)) if isinstance(number, float) else Decimal(int(number))
+        result = decimal_number.quantize(Decimal(1).scaleb(-int(num_digits)), rounding=rounding)
+        return float(result) if isinstance(number, float) else int(result)
+
     def _round(self, number: float, num_digits: int):
-        return round(number, int(num_digits))
+        return self._round_decimal(number, num_digits, ROUND_HALF_UP)
 
     def _roundup(self, number: float, num_digits: int):
-        factor = 10 ** num_digits
-        return ceil(number * factor) / factor
+        return self._round_decimal(number, num_digits, ROUND_UP)
 
     def _rounddown(self, number: float, num_digits: int):
-        factor = 10 ** num_digits
-        return floor(number * factor) / factor
+        return self._round_decimal(number, num_digits, ROUND_DOWN)
 
     def _date(self, year: int, month: int, day: int):
         if isinstance(year, str):
